@@ -299,3 +299,27 @@ def run_extra(ctx):
             len(steered), len(behs), [r.get("why") for r in recs if not r["steered"]][:3]))
     for r in steered[:1] + steered[-1:]:
         ctx.sample({"updial_trace": r["kind"] + "/" + r["listen"], "events": [{k: v for k, v in e.items() if k != "sample"} for e in r["events"]]})
+
+
+def run_udp_fallback(ctx):
+    """Small slice for C01 (added by the lead): udp upstream, truncated UDP reply, TCP side refusing / answering:
+    what the caller gets must be a reply the server produced for its own query or an error - never a released
+    (poisoned) or foreign buffer.  Same spec, driver and trace validation as run_extra, udp scenarios only."""
+    if ctx.replay:
+        return replay(ctx)
+    T = ctx.thorough()
+    rng = random.Random(ctx.seed)
+    behs = vlib.tlc_behaviours(ctx, SPEC, "UpDial_gen.cfg", simulate=1200 if T else 500, depth=80, label="gen udp fallback (C01 slice)",
+                               name="gen_udp_c01", cfg_text=cfg_with("UpDial_gen.cfg", Kinds='{"udp"}', LateCall="0", EnvCancel="FALSE"))
+    behs = [b for b in behs if "Call" in acts(b) and any(s_["a"] == "UdpAnswer" and s_.get("tc") for s_ in b["steps"])
+            and not long_wait(b) and "Tick12" not in acts(b)]
+    rng.shuffle(behs)
+    behs = behs[:(120 if T else 36)]
+    if not behs:
+        raise vlib.Infra("updial (C01 slice): the generator produced no udp scenario with a truncated reply")
+    binary = vlib.go_build(ctx, "drv_updial")
+    recs = run_driver(ctx, binary, behs, 64, hang_bound_s=25)
+    acc, rej = check_records(ctx, recs, binary)
+    ctx.cov["evaluations"] += len(recs)
+    ctx.cov["distinct_nontrivial"] += len({vlib.json.dumps(r["beh"], sort_keys=True) for r in recs if r["steered"]})
+    ctx.cov.setdefault("extra", {})["updial_udp_fallback"] = {"replayed": len(behs), "accepted": acc, "rejected": len(rej)}
